@@ -390,6 +390,15 @@ def systematic_sequences(tier, seed):
                 items.insert(rng.randrange(len(items) + 1), "I")
             prog = _prog(names, items, x_first=rng.random() < 0.5, init_pos=rng.choice(["start", "end"]))
             out.append(prog)
+            # x / initial guess placed directly after a function (the call has to finalise the pending function first):
+            # correct length (valid iff the rest is valid) and wrong length (always a defect, also when a correct one follows)
+            if rng.random() < (0.25 if tier == "quick" else 0.6):
+                pos = rng.randrange(len(items)) + 1
+                k = rng.choice([len(names) + 1, len(names) - 1, 0, len(names) + 2])
+                parts = ["P:" + ",".join(names)] + items[:pos] + [rng.choice([f"XP:{k}", "XP", "X"])] + items[pos:] + ["X", "XP"]
+                out.append(";".join(parts))
+                parts = ["P:" + ",".join(names)] + items[:pos] + [f"XP:{k}"] + items[pos:] + ["X"]
+                out.append(";".join(parts))
             # single-defect mutants of a sample
             if rng.random() < (0.15 if tier == "quick" else 0.4):
                 f = rng.choice(fl)
